@@ -90,14 +90,19 @@ type State struct {
 	cells  map[int]*Val
 	heap   map[string]string
 	epoch  int
-	leaked map[int]bool // locals whose address escaped on the paths leading here
-	pub    map[int]*Val // content of a local as last copied into the heap (nil entry: not current)
+	leaked map[int]bool      // locals whose address escaped on the paths leading here
+	pub    map[int]*Val      // content of a local as last copied into the heap (nil entry: not current)
+	called map[string]string // ghost: callee name -> Bool term "a call to it was executed on the way here"
 }
 
 func (s *State) clone() *State {
 	n := &State{reach: s.reach, epoch: s.epoch, cells: make(map[int]*Val, len(s.cells)), heap: make(map[string]string, len(s.heap)), leaked: make(map[int]bool, len(s.leaked))}
 	for k := range s.leaked {
 		n.leaked[k] = true
+	}
+	n.called = make(map[string]string, len(s.called))
+	for k, v := range s.called {
+		n.called[k] = v
 	}
 	n.pub = make(map[int]*Val, len(s.pub))
 	for k, v := range s.pub {
